@@ -158,4 +158,14 @@ Proof.
     exists m', (d tt). split; [exact Hv|]. split; [exact Hm'|]. split; [reflexivity|exact Hk].
 Qed.
 
+(* overwrite the value of a present key through &mut V *)
+Lemma modify_set_get k v0 v m :
+  Inv_map m -> get k m = Some v0 ->
+  Inv_map (modify k (fun _ => v) m) /\
+  forall k', get k' (modify k (fun _ => v) m) = if k' =? k then Some v else get k' m.
+Proof.
+  intros Hm Hg. destruct (modify_get k (fun _ => v) m Hm) as (Hm' & Hk). split; [exact Hm'|].
+  intros k'. rewrite Hk. destruct (N.eqb_spec k' k) as [->|Hne]; [rewrite Hg; reflexivity|reflexivity].
+Qed.
+
 End MapFacts.
